@@ -53,7 +53,15 @@ where
         let store = Vec::from(bytes);
         // add data to entries
         for entry in &mut entries {
-            let mut remaining = &bytes[entry.offset as usize..];
+            let mut remaining = usize::try_from(entry.offset)
+                .ok()
+                .and_then(|offset| bytes.get(offset..))
+                .ok_or_else(|| {
+                    Error::Nom(format!(
+                        "offset {} of tag {} is outside of the header data store",
+                        entry.offset, entry.tag
+                    ))
+                })?;
 
             match &mut entry.data {
                 IndexData::Null => {}
